@@ -253,3 +253,25 @@ Definition step_dom (s : hstep) : bool := match s with HMut _ op => op_dom op | 
 Definition step_modelled (s : hstep) : bool := match s with HMut _ op => act_modelled (snd op) | _ => true end.
 Definition steps_dom (steps : list hstep) : bool := forallb step_dom steps.
 Definition steps_modelled (steps : list hstep) : bool := forallb step_modelled steps.
+
+(* ------------------------------------------------------------------ what the theorems speak about *)
+
+(* template objects of the property's domain: keys pairwise distinct, lower-case-initial, Unicode; text Unicode.
+   Convert(d) of data in dom_C12 is one, JSON.parse of the text of one is one, a mutation in op_dom keeps it one
+   (Proofs: dom_good, parse_stringify_good, apply_commutes) *)
+Fixpoint goodb (o : obj) : bool :=
+  match o with
+  | ONil | OBool _ | ONum _ => true
+  | OStr s => utf8_valid s
+  | OArr l => forallb goodb l
+  | OMap m => nodupb (map fst m)
+              && forallb (fun kv => match kv with (k, v) => key_lower_initial k && utf8_valid k && goodb v end) m
+  end.
+
+(* a text written by the process against the tree the value semantics holds *)
+Definition reads_back_as (o : option bytes) (sj : option jv) : Prop :=
+  match o, sj with
+  | Some t, Some j => decode t = Some j /\ valid_json t = true
+  | None, None => True
+  | _, _ => False
+  end.
